@@ -1,5 +1,5 @@
 """C01 — a dumped configuration re-parses to the same configuration.
-translate(): regenerates coq/Gen/C01Resolvers.v (loader's and dumper's implicit-resolver tables) so that the
+translate(): regenerates coq/Gen/C01Resolvers.v and C01's own copy coq/Gen/C01Tables.v (loader's and dumper's implicit-resolver tables) so that the
 theorems of coq/Properties/C01.v are re-checked against the tree on every run.
 Correspondence: generated typed parsers x accepted configurations x serialisation variants; real dump / print_config /
 save, real re-parse; Coq judges model agreement (Model/C01Conf.v), guard class (Model/C01Guard.v) and the property."""
@@ -14,7 +14,7 @@ from tie.framework import g_bool, g_list, g_pair, g_str, g_Z, run_impl_parallel
 
 PROP = "C01"
 IMPORTS = ("From JV Require Import Lib.Base Lib.Regex Model.TyVal Model.Scalar Model.C01Conf Model.C01Guard "
-           "Gen.C01Resolvers Corr.C01Judge.")
+           "Gen.C01Tables Corr.C01Judge.")
 RULE = ("one case = (parser, accepted configuration, variant): parser = 1-5 leaves, some under nested groups (dotted keys, "
         "depth <= 3), each with a type drawn from the grammar str/int/float/bool/Any, Optional, Union (int|str, str|int, "
         "float|str, int|float, bool|int, List[int]|str, ...), List, Dict[str,T], Dict[int,T], Tuple[...], Tuple[T,...], Set, "
@@ -641,11 +641,13 @@ def shrink(case):
 # translator + failing-input search when a theorem breaks
 # ---------------------------------------------------------------------------------------------------------------------
 def translate():
-    info, _ = scalar_tables.regenerate()
+    info, _ = scalar_tables.regenerate()                 # the shared copy (C02/C05 judges import it)
+    info2, _ = scalar_tables.regenerate("C01Tables.v")   # C01's own copy: what Properties/C01.v and the judge are built on
+    info.update(info2)
     return info
 
 
-WITNESS_V = """From JV Require Import Lib.Base Lib.Regex Model.TyVal Model.Scalar Model.C01Conf Model.C01Guard Gen.C01Resolvers.
+WITNESS_V = """From JV Require Import Lib.Base Lib.Regex Model.TyVal Model.Scalar Model.C01Conf Model.C01Guard Gen.C01Tables.
 Eval vm_compute in (witness 4000 (And (listed_re loader_table) (Not (listed_re dumper_table)))).
 Eval vm_compute in (witness 4000 (And int_out (Not (tag_re loader_table TgInt)))).
 Eval vm_compute in (witness 4000 (And yaml_float_out (Not (tag_re loader_table TgFloat)))).
